@@ -31,7 +31,9 @@ for pid in sel:
             continue
         touched = set(re.findall(r"^\+\+\+ b/(\S+)", open(patch).read(), re.M))
         checks = [pid]
-        if os.environ.get("REF_ALL"):
+        if os.environ.get("REF_OWN"):
+            pass  # only the author's own property's check
+        elif os.environ.get("REF_ALL"):
             for p in props:
                 files = set(p["anchors"]["files"])
                 if p["id"] not in checks and any(t in files or os.path.basename(t) in {os.path.basename(f) for f in files} for t in touched):
